@@ -24,6 +24,9 @@ THEOREMS = [
     "Mpc.Pool.C17_garble_isolated",
     "Mpc.Pool.C17_garble_result_history_free",
     "Mpc.Pool.C17_release_idempotent",
+    "Mpc.Pool.seqGarble_eq_garble",
+    "Mpc.Pool.C17_garble_equals_C01",
+    "Mpc.Pool.C17_concurrent_garbling_evaluates_correctly",
     "Mpc.Pool.C17_contract_needed_concurrent_release",
     "Mpc.Pool.C17_contract_needed_value_copy",
 ]
@@ -167,6 +170,9 @@ def stress(ctx, n, seed, binary=None, race=False, tag=""):
                                         "(schedule dependent; round in progress: %s)" % (GORACE, seed, n, prog)})
             m.pop("harness_rc", None)
     ctx.absorb_meta(m, prefix="race_" if race else "")
+    if rc == 0:
+        ctx.coverage["completed_" + ("race" if race else "plain") + "_runs"] = \
+            ctx.coverage.get("completed_" + ("race" if race else "plain") + "_runs", 0) + 1
     if not m.get("harness_rc") and os.path.exists(ops) and os.path.getsize(ops) > 0 and rc == 0:
         ctx.correspond("pool-event traces of real runs are runs of the model (%s)" % label, ops, out)
         distinct_traces(ctx, ops)
@@ -176,7 +182,14 @@ def run(ctx):
     ctx.prove("MpcVerif.Props.C17", THEOREMS)
     if ctx.tier == "thorough":
         ctx.leanchecker("MpcVerif.Props.C17")
-    ctx.build_drv()
+    if ctx.build_drv():
+        # hand-checked traces: the driver must reject each kind of ownership violation
+        import shutil
+        cdir = os.path.join(vlib.VERIF, "corpus", "C17")
+        cops, cout = os.path.join(ctx.work, "corpus.ops"), os.path.join(ctx.work, "corpus.out")
+        shutil.copy(os.path.join(cdir, "traces.ops"), cops)
+        shutil.copy(os.path.join(cdir, "traces.out"), cout)
+        ctx.correspond("corpus of hand-checked legal and illegal traces (model verdicts as expected)", cops, cout)
     quick = ctx.tier == "quick"
     seeds = [ctx.seed] if quick else [ctx.seed, ctx.seed + 1000, ctx.seed + 2000, ctx.seed + 3000]
     if ctx.build_hx():
@@ -186,29 +199,37 @@ def run(ctx):
                        m.get("facts_error") or m.get("harness_log", ""))
         else:
             check_facts(ctx, m.get("facts"))
+        # informational: the stated usage-contract limit (C17_contract_needed_value_copy) replayed on the
+        # real code; documents the limit, is neither an obligation nor a violation
+        _, _, m = ctx.run_hx("contract", 20, tag="-contract")
+        ctx.coverage["usage_contract_limit_replayed_on_real_code"] = m.get("contract", {"error": m.get("harness_log", "")[-300:]})
         for s in seeds:
-            stress(ctx, 1500 if quick else 12000, s)
+            stress(ctx, 3000 if quick else 15000, s)
     race = ctx.build_hx(race=True)
     if race:
         for s in seeds:
-            stress(ctx, 600 if quick else 6000, s, binary=race, race=True)
+            stress(ctx, 1200 if quick else 5000, s, binary=race, race=True)
     if ctx.broken and not ctx.fails and ctx.hx and race:
         # widened search for a concrete failing schedule
-        for s in range(ctx.seed + 7000, ctx.seed + 7004):
-            stress(ctx, 3000, s, binary=race, race=True, tag="-widen")
+        for s in range(ctx.seed + 7000, ctx.seed + 7003):
+            stress(ctx, 2000, s, binary=race, race=True, tag="-widen")
             if ctx.fails:
                 break
-            stress(ctx, 6000, s, tag="-widen")
+            stress(ctx, 4000, s, tag="-widen")
             if ctx.fails:
                 break
     c = ctx.coverage.get("counters", {})
-    if ctx.hx and race:
-        for key, least in (("rounds_first_use_raced", 3), ("rounds_with_reuse", 10),
-                           ("rounds_with_overlapping_handles", 10), ("ev_A", 10), ("ev_Q", 10),
-                           ("race_rounds_first_use_raced", 3), ("race_rounds_with_reuse", 10),
-                           ("race_rounds_with_overlapping_handles", 10)):
-            ctx.oblige("generator reached %s >= %d" % (key, least), c.get(key, 0) >= least,
-                       "got %s" % c.get(key, 0))
+    # generator quality (only meaningful for runs that were not cut short by a race report)
+    want = []
+    if ctx.coverage.get("completed_plain_runs"):
+        want += [("rounds_first_use_raced", 3), ("rounds_with_reuse", 10),
+                 ("rounds_with_overlapping_handles", 10), ("ev_A", 10), ("ev_Q", 10)]
+    if ctx.coverage.get("completed_race_runs"):
+        want += [("race_rounds_first_use_raced", 3), ("race_rounds_with_reuse", 10),
+                 ("race_rounds_with_overlapping_handles", 10)]
+    for key, least in want:
+        ctx.oblige("generator reached %s >= %d" % (key, least), c.get(key, 0) >= least,
+                   "got %s" % c.get(key, 0))
     ctx.coverage["rule"] = (
         "rounds of 1..25 goroutines on one shared random circuit (<=400 gates quick, <=800 thorough; kinds: "
         "first-use race on a fresh circuit with a spin barrier, mixed random op scripts, one long-lived handle "
